@@ -10,13 +10,25 @@
 //        S ::= TS<Int> | TSB{<name>:S,...} | TSL<S,<n>>       (no blanks)
 //   bind <i> <t>              -> "ok"                 input i: view(nullptr,t).bind_output(output.view(t))
 //   w <path> <t> <v>          -> "ok<notes>"          leaf.begin_mutation(t).copy_value_from(v)
+//   ws <path> <t> <spec>      -> "ok<notes>"          WHOLE-VALUE write of a container position:
+//   wm <path> <t> <spec>                              position.begin_mutation(t).copy_value_from(<Value>) (ws) /
+//                                                     .move_value_from(std::move(<Value>)) (wm), <Value> built with
+//                                                     BundleBuilder / ListBuilder from <spec>
+//        <spec> ::= <int> (present leaf) | _ (unset child) | (<spec>,...) (present container, one entry per child;
+//                   no blanks), e.g. (5,_,(7,_)); the all-unset value of a two-field bundle is (_,_).  The spec must
+//                   have the shape of the position and be a (...) at the top, else "bad-op".  Only the list value handed
+//                   to the write itself may carry unset elements (compact list); a fixed-size list NESTED in the value is
+//                   a native fixed list, which has no per-element validity: "_" among its elements is "bad-op".
 //   inv <path> <t>            -> "1<notes>"|"0<notes>" position.begin_mutation(t).invalidate()  (its result)
 //        <notes> = " <path>*<count>" for every position (pre-order) whose observers were notified by the
 //        operation: a counting Notifiable is subscribed at EVERY position of the output
 //   dump <t>                  -> "o: <pos>... | i0: <pos>... | i1: unbound"
 //        <pos> = <path>=<valid><modified>/<lmt>/<value or ->     positions in pre-order
 //   <path> = "." (root) or child indices joined by "." ("1.0")
-// Errors: "err:invalid-arg" | "err:logic" | "err:range" | "err:other".  Unknown / malformed: "bad-op".
+// Errors: "err:invalid-arg" | "err:logic" | "err:range" | "err:other", followed by the <notes> of the positions notified
+// before the error (only a whole-value write can fail half-way: "fixed TSData child reported a duplicate modification"
+// = err:logic, when a nested container that a direct write already stamped in this cycle gets a newly written child).
+// Unknown / malformed: "bad-op".
 #include "hgv_common.h"
 
 #include <hgraph/types/metadata/type_registry.h>
@@ -26,8 +38,12 @@
 #include <hgraph/types/time_series/ts_input.h>
 #include <hgraph/types/time_series/ts_output.h>
 #include <hgraph/types/value/value.h>
+#include <hgraph/types/value/specialized_views.h>
+#include <hgraph/types/value/value_builder.h>
+#include <hgraph/types/metadata/value_plan_factory.h>
 
 #include <memory>
+#include <optional>
 #include <stdexcept>
 
 using namespace hgraph;
@@ -53,6 +69,7 @@ namespace
     struct Shape
     {
         bool                       leaf{true};
+        bool                       list{false};
         std::vector<Shape>         kids;
         const TSValueTypeMetaData *meta{nullptr};
     };
@@ -101,6 +118,7 @@ namespace
             if (eat("TSL<"))
             {
                 out.leaf = false;
+                out.list = true;
                 const std::size_t before = count;
                 Shape element = parse(depth + 1);
                 const std::size_t element_count = count - before;
@@ -145,6 +163,100 @@ namespace
             cur = &cur->kids[index];
         }
         return *cur;
+    }
+
+    // ---- value spec -> (possibly sparse) Value of the position's shape
+    struct SpecNode
+    {
+        bool                  present{false};
+        Int                   leaf{0};
+        std::vector<SpecNode> kids;
+    };
+
+    struct SpecParser
+    {
+        const std::string &s;
+        std::size_t        i{0};
+
+        /** the present value of `shape` starting at s[i]; the caller has already excluded "_".  The native value of a
+            fixed-size list has no per-element validity: only the list value handed to the write itself (a compact list
+            from ListBuilder) can carry unset elements, a list NESTED in the value must be dense (else bad-op). */
+        SpecNode parse(const Shape &shape, bool top)
+        {
+            SpecNode out;
+            out.present = true;
+            if (shape.leaf)
+            {
+                std::string digits;
+                if (i < s.size() && s[i] == '-') { digits += s[i++]; }
+                while (i < s.size() && std::isdigit(static_cast<unsigned char>(s[i]))) { digits += s[i++]; }
+                out.leaf = Int{integer(digits)};
+                return out;
+            }
+            if (i >= s.size() || s[i] != '(') { throw BadOp{}; }
+            ++i;
+            for (std::size_t k = 0; k < shape.kids.size(); ++k)
+            {
+                if (k > 0)
+                {
+                    if (i >= s.size() || s[i] != ',') { throw BadOp{}; }
+                    ++i;
+                }
+                if (i < s.size() && s[i] == '_')
+                {
+                    ++i;
+                    if (shape.list && !top) { throw BadOp{}; }
+                    out.kids.emplace_back();
+                }
+                else { out.kids.push_back(parse(shape.kids[k], false)); }
+            }
+            if (i >= s.size() || s[i] != ')') { throw BadOp{}; }
+            ++i;
+            return out;
+        }
+    };
+
+    /** writes the present children of `node` into the (mutable) value view of a container of shape `shape`:
+        MutableIndexedValueView::at(k) marks a bundle field as set; untouched bundle fields stay unset */
+    void fill_value(ValueView target, const Shape &shape, const SpecNode &node)
+    {
+        if (shape.leaf)
+        {
+            target.checked_mutable_as<Int>() = node.leaf;
+            return;
+        }
+        if (shape.list)
+        {
+            auto list = target.as_list().begin_mutation();
+            for (std::size_t k = 0; k < node.kids.size(); ++k)
+            {
+                if (node.kids[k].present) { fill_value(list.at(k), shape.kids[k], node.kids[k]); }
+            }
+            return;
+        }
+        auto bundle = target.as_bundle().begin_mutation();
+        for (std::size_t k = 0; k < node.kids.size(); ++k)
+        {
+            if (node.kids[k].present) { fill_value(bundle.at(k), shape.kids[k], node.kids[k]); }
+        }
+    }
+
+    Value build_value(const Shape &shape, const SpecNode &node, bool top)
+    {
+        if (shape.leaf) { return Value{node.leaf}; }
+        if (shape.list && top)
+        {
+            ListBuilder builder{ValuePlanFactory::instance().type_for(shape.kids[0].meta->value_schema), *shape.meta->value_schema};
+            for (std::size_t k = 0; k < node.kids.size(); ++k)
+            {
+                if (node.kids[k].present) { builder.push_back(build_value(shape.kids[k], node.kids[k], false)); }
+                else { builder.push_back_unset(); }
+            }
+            return builder.build();
+        }
+        Value value{ValuePlanFactory::instance().type_for(shape.meta->value_schema)};
+        fill_value(value.view().begin_mutation(), shape, node);
+        return value;
     }
 
     TSOutputView out_at(TSOutputView view, const std::vector<std::size_t> &path, std::size_t k = 0)
@@ -222,6 +334,8 @@ namespace
             output.reset();
         }
     };
+
+    std::string notes_of(const std::unique_ptr<World> &world) { return world ? world->take_notes() : std::string{}; }
 }  // namespace
 
 int main()
@@ -280,6 +394,22 @@ int main()
                 static_cast<void>(mutation.copy_value_from(value.view()));
                 std::cout << "ok" << world->take_notes() << "\n";
             }
+            else if ((op == "ws" || op == "wm") && w.size() == 4 && world)
+            {
+                const auto   path  = parse_path(w[1]);
+                const auto   t     = dt(nat(w[2]));
+                const Shape &shape = shape_at(world->shape, path);
+                if (shape.leaf) { throw BadOp{}; }
+                SpecParser     spec{w[3]};
+                const SpecNode node = spec.parse(shape, true);
+                if (spec.i != w[3].size()) { throw BadOp{}; }
+                Value value = build_value(shape, node, true);
+                auto position = out_at(world->output->view(t), path);
+                auto mutation = position.begin_mutation(t);
+                if (op == "ws") { static_cast<void>(mutation.copy_value_from(value.view())); }
+                else { static_cast<void>(mutation.move_value_from(std::move(value))); }
+                std::cout << "ok" << world->take_notes() << "\n";
+            }
             else if (op == "inv" && w.size() == 3 && world)
             {
                 const auto path = parse_path(w[1]);
@@ -305,12 +435,14 @@ int main()
             }
             else { std::cout << "bad-op\n"; }
         }
+        // an operation that fails half-way (a whole-value write) has already notified the observers of the children it
+        // wrote: those notes are listed after the error class (empty for every other error)
         catch (const BadOp &) { std::cout << "bad-op\n"; }
-        catch (const std::invalid_argument &) { std::cout << "err:invalid-arg\n"; }
-        catch (const std::out_of_range &) { std::cout << "err:range\n"; }
-        catch (const std::length_error &) { std::cout << "err:range\n"; }
-        catch (const std::logic_error &) { std::cout << "err:logic\n"; }
-        catch (const std::exception &) { std::cout << "err:other\n"; }
+        catch (const std::invalid_argument &) { std::cout << "err:invalid-arg" << notes_of(world) << "\n"; }
+        catch (const std::out_of_range &) { std::cout << "err:range" << notes_of(world) << "\n"; }
+        catch (const std::length_error &) { std::cout << "err:range" << notes_of(world) << "\n"; }
+        catch (const std::logic_error &) { std::cout << "err:logic" << notes_of(world) << "\n"; }
+        catch (const std::exception &) { std::cout << "err:other" << notes_of(world) << "\n"; }
     }
     world.reset();
     return 0;
